@@ -357,7 +357,8 @@ def run(rep, ctx):
     with rep.guard("R19.4"):
         r19_4(rep, M, "R19.4")
     with rep.guard("R19.5"):
-        c13.r13_2(rep, M, "R19.5")
+        from ..report import Filtered as _F
+        c13.r13_2(_F(rep, lambda c: "radii" in c), M, "R19.5")      # the bond threshold a cluster remembers is the same on both sides of C19's comparison
     rep.rule("R19.8", "the Classifier honours its documented `radii` option: it reaches get_distances and get_dimensionality in classify")
     with rep.guard("R19.8"):
         r19_8(rep, M, "R19.8")
@@ -392,6 +393,7 @@ def run(rep, ctx):
     rep.floor("R19.1", 2)
     rep.floor("R19.2", 3)
     rep.floor("R19.4", 6)
+    rep.floor("R19.5", 6)
 
 
 META = {
